@@ -251,6 +251,28 @@ def extract(src, errno_value):
     e = one("add_message.producer", prod)
     emit("producerNext", "add_message/add_vmessage: `ip->message_producer = %s;` (all four stores)" % e,
          to_lean("add_message.producer", e, "int"))
+    # --- negotiation written to a telnet port at connect (setup_accepted_connection)
+    sac = func_body(src, r"\nstatic void setup_accepted_connection \(port_def_t \*port, socket_fd_t new_socket_fd, struct sockaddr_in \*addr\) \{",
+                    "setup_accepted_connection")
+    m = re.search(r"if \(port->kind == PORT_TELNET\)\s*\{\s*query_addr_name \(user_ob\);((?:\s*add_message \(user_ob, \w+\);)+)"
+                  r"\s*flush_message \(user_ob->interactive\);\s*\}", sac)
+    if not m:
+        raise X.TieBroken("guard:setup_accepted_connection.telnet", "cannot locate the telnet negotiation block at connect")
+    msgs = []
+    for name in re.findall(r"add_message \(user_ob, (\w+)\);", m.group(1)):
+        d = re.search(r"static char %s\[\] = \{([^}]*)\};" % re.escape(name), src)
+        if not d:
+            raise X.TieBroken("guard:" + name, "cannot locate the initialiser of %s" % name)
+        toks = [re.sub(r"^INT_CHAR\((.*)\)$", r"\1", t.strip()) for t in d.group(1).split(",") if t.strip()]
+        if not toks or toks[-1] != "0":
+            raise X.TieBroken("guard:" + name, "%s is not a 0-terminated byte list" % name)
+        vals = [errno_value(t) & 0xFF for t in toks[:-1]]
+        if any(v == 0 for v in vals):
+            raise X.TieBroken("guard:" + name, "%s contains an inner NUL" % name)
+        msgs.append((name, vals))
+    out.append("/-- C (setup_accepted_connection, PORT_TELNET: add_message of %s, then flush_message) -/\n"
+               "def connectTelnet : List (List Nat) := [%s]"
+               % (", ".join(n for n, _ in msgs), ", ".join("[" + ", ".join(map(str, v)) + "]" for _, v in msgs)))
     out.append("/-- C (`if (*cp == '\\n')`) -/\ndef lfByte : Nat := 10")
     out.append("/-- C (`message_buf[producer] = '\\r'`) -/\ndef crByte : Nat := 13")
     return "\n\n".join(out)
